@@ -66,7 +66,7 @@ def handleReprb (b : List Nat) : String :=
     | some t => if t == r then "same" else "diff"
   let disp := match bytesReprToString b with
     | none => "panic"
-    | some t => if t == r then "eq" else "ne"
+    | some t => if t == r then "eq" else showText t
   s!"{showLayout l (aChanged b l)} repr={showText r} tostr={tostr} rt={rtBytes r b} disp={disp}"
 
 def handleReprbq (mode : String) (b : List Nat) : String :=
